@@ -436,3 +436,41 @@ pub fn freq_strategy() -> proptest::strategy::BoxedStrategy<Freq> {
     ]
     .boxed()
 }
+
+/// A table with an exact number of rows of two kinds, for block-boundary sizes: `surv` rows in which
+/// at least one sample outside `special` has a base, and `gone` rows in which only samples inside
+/// `special` (a bit mask over the `n` samples) have one. Arms are distinct by construction.
+pub fn sized_table(k: usize, n: usize, special: u32, surv: usize, gone: usize, stride: u16, salt: u64) -> Table {
+    let names: Vec<String> = (0..n).map(crate::gen::set_sample_name).collect();
+    let keep: Vec<usize> = (0..n).filter(|j| special >> j & 1 == 0).collect();
+    let spec: Vec<usize> = (0..n).filter(|j| special >> j & 1 == 1).collect();
+    assert!(!keep.is_empty() && (!spec.is_empty() || gone == 0));
+    let bits = 2 * (k - 1);
+    let odd = stride as u128 * 2 + 1;
+    let mut rows = std::collections::BTreeMap::new();
+    for i in 0..surv + gone {
+        let mut x = ((i as u128 + 1) * odd) % (1u128 << bits.min(100));
+        if bits > 60 {
+            x |= (i as u128 + 1) << 44;
+        }
+        let mut v = vec![b'-'; n];
+        let h = |j: usize| crate::engine::splitmix64(salt ^ (i as u64) << 8 ^ j as u64);
+        let (must, may): (&Vec<usize>, &[usize]) = if i < surv { (&keep, &spec[..]) } else { (&spec, &[]) };
+        for j in must.iter().chain(may.iter()) {
+            let r = h(*j);
+            if r % 5 != 0 {
+                v[*j] = model::BASES[(r >> 8) as usize % 4];
+            }
+        }
+        if must.iter().all(|j| v[*j] == b'-') {
+            let j = must[(h(99) as usize) % must.len()];
+            v[j] = model::BASES[(h(98) >> 8) as usize % 4];
+        }
+        rows.insert(model::unpack_arms(x, k), v);
+    }
+    assert_eq!(rows.len(), surv + gone);
+    Table { names, rows }
+}
+
+/// row counts on and next to block sizes that row-processing code is likely to use
+pub const BOUNDARY_SIZES: [usize; 14] = [255, 256, 257, 1023, 1024, 1025, 2047, 2048, 2049, 3072, 4095, 4096, 4097, 8192];
